@@ -170,9 +170,17 @@ type world struct {
 	rom []byte
 }
 
+var worldsBuilt int
+
 func newWorld(c *rig.Ctx, r *rig.Rng) *world {
 	rom := rig.SignatureROM(0x00, 0, 0)
-	m := rig.MustNew(rom, rig.Opts{})
+	// every third machine is built with the LCD debug option (a debug picture, nothing a guest
+	// may notice at the registers)
+	worldsBuilt++
+	m := rig.MustNew(rom, rig.Opts{DebugLCD: worldsBuilt%3 == 2})
+	if worldsBuilt%3 == 2 {
+		c.Count("worlds_with_debug_lcd", 1)
+	}
 	w := &world{c: c, m: m, ref: &memref{lcdOn: true}, rom: rom}
 	for a := 0; a < 0x8000; a++ {
 		w.ref.val[a], w.ref.known[a] = rom[a], true
